@@ -75,6 +75,24 @@ pub mod checks {
             TestFunction::Search(x, y) | TestFunction::Match(x, y) => a(x) || a(y),
         }
     }
+    /// string literals of the comparisons / function arguments in the filters of a query
+    fn literal_strings(q: &[Segment], out: &mut Vec<String>) {
+        fn cmpb(c: &Comparable, out: &mut Vec<String>) { match c { Comparable::Literal(Literal::String(s)) => out.push(s.clone()), Comparable::Function(tf) => tfn(tf, out), _ => {} } }
+        fn arg(a: &FnArg, out: &mut Vec<String>) { match a { FnArg::Literal(Literal::String(s)) => out.push(s.clone()), FnArg::Test(t) => tst(t, out), FnArg::Filter(f) => flt(f, out), _ => {} } }
+        fn tfn(tf: &TestFunction, out: &mut Vec<String>) {
+            match tf { TestFunction::Custom(_, v) => v.iter().for_each(|x| arg(x, out)), TestFunction::Length(x) => arg(x, out), TestFunction::Value(x) | TestFunction::Count(x) => arg(x, out),
+                       TestFunction::Search(x, y) | TestFunction::Match(x, y) => { arg(x, out); arg(y, out) } }
+        }
+        fn tst(t: &Test, out: &mut Vec<String>) { match t { Test::RelQuery(v) => literal_strings(v, out), Test::AbsQuery(q) => literal_strings(&q.segments, out), Test::Function(tf) => tfn(tf, out) } }
+        fn flt(f: &Filter, out: &mut Vec<String>) {
+            match f { Filter::Or(v) | Filter::And(v) => v.iter().for_each(|x| flt(x, out)), Filter::Atom(FilterAtom::Filter { expr, .. }) => flt(expr, out),
+                      Filter::Atom(FilterAtom::Test { expr, .. }) => tst(expr, out), Filter::Atom(FilterAtom::Comparison(c)) => { let (l, r) = c.vals(); cmpb(l, out); cmpb(r, out) } }
+        }
+        fn sel(s: &Selector, out: &mut Vec<String>) { if let Selector::Filter(f) = s { flt(f, out) } }
+        for s in q {
+            match s { Segment::Selector(x) => sel(x, out), Segment::Selectors(v) => v.iter().for_each(|x| sel(x, out)), Segment::Descendant(b) => literal_strings(std::slice::from_ref(&**b), out) }
+        }
+    }
     fn name_texts(q: &[Segment], out: &mut Vec<String>) {
         fn sel(s: &Selector, out: &mut Vec<String>) { if let Selector::Name(t) = s { out.push(t.clone()); } }
         for s in q {
@@ -128,6 +146,9 @@ pub mod checks {
         if texts.iter().any(|t| t.starts_with('"')) { f.push("double-quoted-name-selector".to_string()); }
         if texts.iter().any(|t| t.contains('\\')) { f.push("escape-in-name-selector".to_string()); }
         for t in &texts { for k in escape_kinds(t) { if !f.contains(&k) { f.push(k); } } }
+        let mut lits = vec![];
+        literal_strings(q, &mut lits);
+        if lits.iter().any(|l| escape_name(l) != *l) { f.push("string-literal-needs-escaping".to_string()); }
         let mut names = vec![];
         doc_names(doc, &mut names);
         if names.iter().any(|n| escape_name(n) != *n) { f.push("member-name-needs-escaping".to_string()); }
@@ -318,6 +339,22 @@ pub mod checks {
                 out.push(JpQuery::new(vec![Segment::Selector(Selector::Slice(Some(i), Some(-i), Some(1)))]));
                 out.push(JpQuery::new(vec![Segment::Selector(Selector::Slice(None, None, Some(i)))]));
             }
+        } else if name == "text_cmp" {
+            // comparisons through the parser: every comparison atom of the menu, plus string literals that need escaping in the query text
+            let mut fs: Vec<Filter> = atoms().into_iter().filter(|f| matches!(f, Filter::Atom(FilterAtom::Comparison(_)))).collect();
+            let cur = || Comparable::SingularQuery(SingularQuery::Current(vec![]));
+            let lit = |s: &str| Comparable::Literal(Literal::String(s.to_string()));
+            for s in ["a'b", "a\\b", "a\nb", "a\tb", "a/b", "a\"b", "é", "𝄞", "'", "\\", "a\\'b", "a\\nb", ""] {
+                fs.push(Filter::Atom(FilterAtom::Comparison(Box::new(Comparison::Eq(cur(), lit(s))))));
+                fs.push(Filter::Atom(FilterAtom::Comparison(Box::new(Comparison::Ne(cur(), lit(s))))));
+                fs.push(Filter::Atom(FilterAtom::Comparison(Box::new(Comparison::Lt(lit(s), cur())))));
+                fs.push(Filter::Atom(FilterAtom::Comparison(Box::new(Comparison::Eq(Comparable::SingularQuery(SingularQuery::Current(vec![SingularQuerySegment::Name("a".into())])), lit(s))))));
+            }
+            for f in fs {
+                let sgm = Segment::Selector(Selector::Filter(f));
+                out.push(JpQuery::new(vec![sgm.clone()]));
+                out.push(JpQuery::new(vec![Segment::Selector(Selector::Wildcard), sgm]));
+            }
         } else if name == "text_union" {
             // multi-selector segments (all ordered pairs, also the same selector twice, a few triples) after `$`, `$[*]`, `$..` and `$.a`
             let sels = vec![Selector::Name("a".into()), Selector::Name("b".into()), Selector::Index(0), Selector::Index(1), Selector::Index(-1), Selector::Wildcard,
@@ -373,6 +410,10 @@ pub mod checks {
                                  let mut v = vec![json!({"a": {"0": "zero", "1": [1, 2]}, "0": {"a": 1}}), json!({"a/b": 1, "a": {"b": 2}, "a~b": 3, "a~0b": 4, "~0": 5, "~": 6}),
                                                   json!({"a": [{"0": 1}, [10, 11]], "b": {"-1": 1, "a": {"k": [1, 2, 3]}}}), json!([{"0": "m"}, ["e0", "e1"]]), json!({"0": [0, 1], "1": {"0": {"1": 2}}}),
                                                   json!({"a~1b": 7, "a/b": 8, "x": {"a~1b": 9}}), json!({"a": {"~0": 1, "~": 2, "k": {"~0": 3}}}), json!({"a\\b": 1, "/": 2, "a": {"/": 3, "a\\b": [1, 2]}, "b": {"a": {"/": 4}}})];
+                                 v.extend(docs(if tier == "thorough" { 200 } else { 30 }, seed)); v }
+                             else if name == "text_cmp" {
+                                 let mut v = vec![json!(["a'b", "a\\'b", "a\nb", "a\\nb", "a/b", "a\\b", "é", "a\"b", "a\tb", "'", "\\", "", "𝄞", "b"]),
+                                                  json!([{"a": "a'b"}, {"a": "a\\'b"}, {"a": "a\nb"}, {"a": "a\\b"}, {"a": "é"}, {"a": ""}, {"b": "a'b"}])];
                                  v.extend(docs(if tier == "thorough" { 200 } else { 30 }, seed)); v }
                              else { docs(if tier == "thorough" { 200 } else { 30 }, seed) };
         let qs = text_queries(name, tier, seed);
